@@ -12,6 +12,8 @@ import (
 	"strconv"
 	"strings"
 	"testing"
+	"time"
+	"verifharness/drv"
 
 	"github.com/superfly/ltx"
 	"pgregory.net/rapid"
@@ -22,9 +24,10 @@ import (
 )
 
 type c11Case struct {
-	Cfg   lsw.Config `json:"cfg"`
-	Cmds  []pCmd     `json:"cmds"`
-	Behind bool      `json:"behind,omitempty"` // restart with the meta directory removed so the baseline file is fetched from the replica
+	Cfg    lsw.Config `json:"cfg"`
+	Cmds   []pCmd     `json:"cmds"`
+	Behind bool       `json:"behind,omitempty"` // restart with the meta directory removed so the baseline file is fetched from the replica
+	Follow int        `json:"follow,omitempty"` // >0: afterwards a traced follow-mode restore runs while the primary replicates this many more transactions
 }
 
 func genC11(t *rapid.T) c11Case {
@@ -37,6 +40,9 @@ func genC11(t *rapid.T) c11Case {
 	c := c11Case{Cfg: cfg}
 	c.Cmds = genProcScenario(t, cfg, rapid.IntRange(4, 10).Draw(t, "n"), true)
 	c.Behind = rapid.IntRange(0, 3).Draw(t, "behind") == 0
+	if rapid.IntRange(0, 9).Draw(t, "follow") < 4 {
+		c.Follow = rapid.IntRange(1, 3).Draw(t, "followTx")
+	}
 	return c
 }
 
@@ -292,7 +298,92 @@ func execC11(c c11Case) (res core.Result) {
 			return res
 		}
 	}
+	if c.Follow > 0 {
+		if v := c11FollowSession(w, c.Follow, &res, &totalRen, &totalAcks, classes); v != nil {
+			res.Violation = v
+			return res
+		}
+	}
 	return res
+}
+
+// c11FollowSession traces a follow-mode restore (initial restore, then incremental application with its TXID sidecar
+// republished after every applied batch) while an untraced litestream child replicates n more transactions.
+func c11FollowSession(w *lsw.World, n int, res *core.Result, totalRen, totalAcks *int, classes map[string]int) *core.Violation {
+	if lsw.MaxL0(w.ReplicaDir) == 0 {
+		return nil
+	}
+	outDir := filepath.Join(w.Dir, "followout")
+	_ = os.MkdirAll(outDir, 0o755)
+	out := filepath.Join(outDir, "f.db")
+	initial := listLTXPaths(w.ReplicaDir, w.MetaDir())
+	sup, err := ptracesup.Start([]string{drv.Bin()}, os.Environ(), ptracesup.Options{ScopeDir: w.Dir, Record: true})
+	if err != nil {
+		panic(fmt.Sprintf("harness: start traced follower: %v", err))
+	}
+	proc := drv.Attach(sup.Cmd, sup.Stdin, sup.Stdout, sup.Stderr)
+	if err := proc.Send(map[string]any{"op": "restore", "replica": w.ReplicaDir, "out": out, "follow": true, "follow_ms": 2}); err != nil {
+		panic(fmt.Sprintf("harness: send follow: %v", err))
+	}
+	proc.WaitBegin()
+	reply := make(chan drv.Reply, 1)
+	go func() { reply <- proc.Wait() }()
+	ended := false
+	var got drv.Reply
+	waitSidecar := func(target ltx.TXID) {
+		for poll := 0; poll < 3000 && !ended; poll++ {
+			if b, err := os.ReadFile(out + "-txid"); err == nil {
+				if id, err := ltx.ParseTXID(strings.TrimSpace(string(b))); err == nil && id >= target {
+					return
+				}
+			}
+			select {
+			case got = <-reply:
+				ended = true
+			default:
+				time.Sleep(2 * time.Millisecond)
+			}
+		}
+	}
+	waitSidecar(lsw.MaxL0(w.ReplicaDir))
+	// the primary moves on
+	s2, err := startSession(w, false, 0, false)
+	if err != nil {
+		panic(fmt.Sprintf("harness: start primary child: %v", err))
+	}
+	if r := s2.open(); r.OK {
+		for k := 0; k < n && !ended; k++ {
+			w.AppStep(lsw.Op{K: "insert", T: 0, N: 2, S: 1})
+			s2.do(lsCmd("syncwait"))
+			waitSidecar(lsw.MaxL0(w.ReplicaDir))
+		}
+		s2.proc.Do(map[string]any{"op": "close"})
+	}
+	s2.stop()
+	if !ended {
+		proc.Term()
+		got = <-reply
+	}
+	if !got.Crashed {
+		proc.Close()
+	}
+	if !sup.Done() {
+		sup.KillNow()
+	}
+	sup.Wait()
+	res.Labels = append(res.Labels, "follow-session")
+	isOut := func(p string) bool { return p == out || p == out+"-txid" }
+	v, nr, _, na, cl := checkTrace(sup.Trace(), initial, w.ReplicaDir, isOut)
+	*totalRen += nr
+	*totalAcks += na
+	res.Evals += nr
+	for k, c := range cl {
+		classes[k] += c
+	}
+	if v != nil {
+		return &core.Violation{Oracle: v.Rule, Msg: "follow session: " + v.Msg}
+	}
+	return nil
 }
 
 func TestProp_C11(t *testing.T) {
